@@ -99,13 +99,13 @@ def strategy(tier):
 
 def STRATA(tier):
     names = sorted(n for n in list(RECIPES) + list(EXTRA) if n not in SKIP)
-    return names + ["attributes"] * 40
+    return names + ["attributes"] * 40 + ["construct-allocation#2", "construct-allocation#3", "construct-unnamed#2"]
 
 
 def strategy_for(tier, name):
     if name == "attributes":
         return attr_case()
-    return result_case(only=name)
+    return result_case(only=name.split("#")[0])
 
 
 # ---------------------------------------------------------------- structural predicate
